@@ -5,7 +5,7 @@ cd "$(dirname "$0")/.."
 tier=${2:-quick}
 for seed in $1; do
   for p in C01 C04 C05 C06 C07 C08 C09 C11 C14 C15 C16 C17 C19; do
-    out=$(VERIF_SEED=$seed timeout 3000 /venv/bin/python dst/run.py $p --tier $tier 2>&1)
+    out=$(VERIF_SEED=$seed timeout 3600 /venv/bin/python dst/run.py $p --tier $tier 2>&1)
     code=$?
     echo "seed=$seed $p exit=$code $(echo "$out" | grep '^DONE' | cut -c1-200)"
     if [ $code -ne 0 ]; then echo "$out" | grep -v '^DONE\|^SEED' | cut -c1-400 | head -12; fi
